@@ -70,6 +70,7 @@ type controller struct {
 	badconn  map[int]int // gid -> remaining driver calls to fail with ErrBadConn
 	faults   []fault
 	inTx     [8]int32 // per goroutine: inside the body of a Transaction block (open transaction)
+	stray    []string // statements of a transaction block that reached the driver outside the transaction
 	finished [8]int32
 }
 
@@ -337,6 +338,14 @@ func newEnvPool(mode string, rawPool bool) *env {
 			return
 		}
 		if gid := gidOf(ev.Ctx); gid != 0 {
+			// a goroutine runs its operations one after the other: while its transaction block is open every
+			// statement it issues is a member of that block and must run inside the transaction (as it does in
+			// non-prepared mode) - anywhere else it reads and writes other rows
+			if gid < len(e.ctl.inTx) && atomic.LoadInt32(&e.ctl.inTx[gid]) == 1 && ev.TxID == 0 && !strings.HasPrefix(ev.Text, "SAVEPOINT") && !strings.HasPrefix(ev.Text, "ROLLBACK TO") {
+				e.ctl.mu.Lock()
+				e.ctl.stray = append(e.ctl.stray, fmt.Sprintf("g%d: %s %q reached the driver on connection %d outside the open transaction of the block it belongs to", gid, ev.Kind, ev.Text, ev.ConnID))
+				e.ctl.mu.Unlock()
+			}
 			if err := e.ctl.park(gid, ev.Kind, ev.Text); err != nil {
 				e.pending.Store(gid, err) // returned to the driver wrapper by the fault plan below
 			}
@@ -388,6 +397,34 @@ type cacheEvent struct {
 	kind       string // reset | close
 	via        int
 	start, end int64
+}
+
+// allBlocked reads a full goroutine dump: true when every goroutine started by runCase for a program is in a
+// blocking state (waiting for a lock, a channel, a condition, a connection), none running, runnable or in a C call.
+func allBlocked(dump string) bool {
+	return goroutinesBlocked(dump, "c14.runCase.func", "c14.runCase.gowrap")
+}
+
+// goroutinesBlocked: the goroutines of the dump whose stack mentions one of the markers are all in a blocking state.
+func goroutinesBlocked(dump string, markers ...string) bool {
+	found := false
+	for _, g := range strings.Split(dump, "\n\n") {
+		mine := false
+		for _, m := range markers {
+			mine = mine || strings.Contains(g, m)
+		}
+		if !mine {
+			continue
+		}
+		found = true
+		head := firstLine(g)
+		for _, st := range []string{"[running", "[runnable", "[syscall", "[sleep"} {
+			if strings.Contains(head, st) {
+				return false
+			}
+		}
+	}
+	return found
 }
 
 func genProgram(t *rapid.T, g int, mode string, allowClose bool) []Op {
@@ -609,6 +646,7 @@ func runCase(rt *rapid.T) {
 		gid        int
 	}
 	steps, sameTextWindow, faultsDrawn := 0, false, 0
+	starved, blockedDumps := 0, 0
 	lastProgress := atomic.LoadInt64(&ctl.progress)
 	lastChange := time.Now()
 	for {
@@ -635,9 +673,24 @@ func runCase(rt *rapid.T) {
 		if n == 0 {
 			ctl.mu.Unlock()
 			if time.Since(lastChange) > 10*time.Second {
-				buf := make([]byte, 1<<16)
+				buf := make([]byte, 1<<18)
 				k := runtime.Stack(buf, true)
-				rt.Fatalf("C14 violated: deadlock - %d goroutine(s) neither finished nor parked at a driver call for 10s\ncase: %s\n%s",
+				// the clock alone decides nothing: on a busy machine a goroutine may simply not have been
+				// scheduled. A deadlock is reported only when every program goroutine is found BLOCKED (not
+				// running, runnable or inside a C call) in two dumps taken 10s apart
+				if !allBlocked(string(buf[:k])) {
+					blockedDumps = 0
+					lastChange = time.Now()
+					if starved++; starved > 90 {
+						rt.Skip("program goroutines were runnable but made no progress for 15 minutes: machine too busy, nothing decided")
+					}
+					continue
+				}
+				if blockedDumps++; blockedDumps < 2 {
+					lastChange = time.Now()
+					continue
+				}
+				rt.Fatalf("C14 violated: deadlock - %d goroutine(s) neither finished nor parked at a driver call, all of them blocked in two dumps 10s apart\ncase: %s\n%s",
 					atomic.LoadInt32(&ctl.live), desc.String(), buf[:k])
 			}
 			time.Sleep(200 * time.Microsecond)
@@ -745,6 +798,12 @@ func runCase(rt *rapid.T) {
 	}
 	if len(panics) > 0 {
 		fail("%s", strings.Join(panics, "\n"))
+	}
+	ctl.mu.Lock()
+	stray := append([]string(nil), ctl.stray...)
+	ctl.mu.Unlock()
+	if len(stray) > 0 {
+		fail("in non-prepared mode every statement of a transaction block runs inside the transaction; here %s", strings.Join(stray, "; "))
 	}
 
 	// ---- oracle 2: results ------------------------------------------------------------------------
@@ -989,7 +1048,14 @@ func runCase(rt *rapid.T) {
 	}
 	closeAll()
 	deadline := time.Now().Add(30 * time.Second) // the cache closes its statements from goroutines of its own: give them time on a loaded machine
-	for e.rec.OpenStmts() != 0 && time.Now().Before(deadline) {
+	for ext := 0; e.rec.OpenStmts() != 0; {
+		if !time.Now().Before(deadline) {
+			// a close that was started but has not run yet is not a leak: wait for it (bounded at 15 minutes)
+			if ext++; ext > 30 || !closePending() {
+				break
+			}
+			deadline = time.Now().Add(30 * time.Second)
+		}
 		time.Sleep(200 * time.Microsecond)
 	}
 	if n := e.rec.OpenStmts(); n != 0 {
@@ -1084,7 +1150,7 @@ func blockedOnCacheMutex() string {
 			continue // not a program goroutine
 		}
 		head := firstLine(g)
-		if strings.Contains(head, "[running") || strings.Contains(head, "[runnable") {
+		if strings.Contains(head, "[running") || strings.Contains(head, "[runnable") || strings.Contains(head, "[syscall") {
 			return "" // somebody still makes progress: not quiescent
 		}
 		if !strings.Contains(head, "sync.RWMutex") && !strings.Contains(head, "sync.Mutex") && !strings.Contains(head, "semacquire") {
@@ -1102,6 +1168,13 @@ func blockedOnCacheMutex() string {
 		}
 	}
 	return found
+}
+
+// closePending: some goroutine is inside (or about to run) a statement close.
+func closePending() bool {
+	buf := make([]byte, 1<<18)
+	k := runtime.Stack(buf, true)
+	return strings.Contains(string(buf[:k]), "database/sql.(*Stmt).Close")
 }
 
 // isErr: gorm joins a second error with "%v; %w", which keeps only the later one in the chain,
@@ -1376,21 +1449,43 @@ func TestC14BoundedPool(t *testing.T) {
 			nontrivial = nontrivial || ((o.Kind == "tx" || o.Kind == "conn") && maxOpen == 1) || hasNested
 		}
 		evid.Case("bounded: "+desc, nontrivial, desc, cl...)
-		select {
-		case v := <-done:
-			if v.msg != "" {
-				rt.Fatalf("C14 violated (bounded pool, one goroutine): %s\ncase: %s", v.msg, desc)
+		blockedDumps := 0
+	wait:
+		for tries := 0; ; tries++ {
+			select {
+			case v := <-done:
+				if v.msg != "" {
+					rt.Fatalf("C14 violated (bounded pool, one goroutine): %s\ncase: %s", v.msg, desc)
+				}
+				break wait
+			case <-time.After(10 * time.Second):
+				buf := make([]byte, 1<<18)
+				k := runtime.Stack(buf, true)
+				// the clock alone decides nothing (see runCase): the goroutine must be found blocked twice
+				if !goroutinesBlocked(string(buf[:k]), "c14.TestC14BoundedPool.func1.") {
+					blockedDumps = 0
+					if tries > 90 {
+						rt.Skip("the goroutine was runnable but did not finish in 15 minutes: machine too busy, nothing decided")
+					}
+					continue
+				}
+				if blockedDumps++; blockedDumps < 2 {
+					continue
+				}
+				msg := fmt.Sprintf("C14 violated: deadlock - a single goroutine on a pool of %d connection(s) did not finish %s and is blocked in two dumps 10s apart (the statement cache waits for a pool connection while the block holds it)\ncase: %s\n%s", maxOpen, at.Load(), desc, buf[:k])
+				fmt.Println("VERIF-FAILURE-BEGIN\n" + msg + "\nVERIF-FAILURE-END")
+				rt.Fatalf("%s", msg)
 			}
-		case <-time.After(10 * time.Second):
-			buf := make([]byte, 1<<16)
-			k := runtime.Stack(buf, true)
-			msg := fmt.Sprintf("C14 violated: deadlock - a single goroutine on a pool of %d connection(s) did not finish %s within 10s (the statement cache waits for a pool connection while the block holds it)\ncase: %s\n%s", maxOpen, at.Load(), desc, buf[:k])
-			fmt.Println("VERIF-FAILURE-BEGIN\n" + msg + "\nVERIF-FAILURE-END")
-			rt.Fatalf("%s", msg)
 		}
 		e.cache(via).Close()
 		deadline := time.Now().Add(30 * time.Second) // the cache closes its statements from goroutines of its own: give them time on a loaded machine
-		for e.rec.OpenStmts() != 0 && time.Now().Before(deadline) {
+		for ext := 0; e.rec.OpenStmts() != 0; {
+			if !time.Now().Before(deadline) {
+				if ext++; ext > 30 || !closePending() {
+					break
+				}
+				deadline = time.Now().Add(30 * time.Second)
+			}
 			time.Sleep(200 * time.Microsecond)
 		}
 		if k := e.rec.OpenStmts(); k != 0 {
